@@ -157,6 +157,8 @@ def plan(run):
             keep = set(rng.choice(len(wins), size=min(len(wins), 70 if si < 2 else 40), replace=False).tolist())
             z = set(rng.choice(len(zero), size=min(len(zero), 16), replace=False).tolist())
             wins = [w for i, w in enumerate(wins) if i in keep] + [w for i, w in enumerate(zero) if i in z] + [(0, ni, 0, nx), (0, 1, 0, 1), (ni - 1, ni, nx - 1, nx)]
+            # windows along one axis only (every inline kept / every crossline kept)
+            wins += [(0, ni, 1, nx - 1), (0, ni, nx // 2, nx), (0, ni, 0, max(1, nx // 3)), (1, ni - 1, 0, nx), (ni // 2, ni, 0, nx), (0, max(1, ni // 3), 0, nx)]
             wins = sorted(set(wins))
         for j, w in enumerate(wins):
             cli = j % 7 == 3        # through the command line interface (no detection option there: the default)
